@@ -255,4 +255,7 @@ func genC07(t *testing.T) {
 		}
 		run(&caseT{Site: st + "/" + mode, Stage: st, Cap: wide(r, 9, 16, 64), Mode: mode, Inputs: [][]int{in}, Fail: fail, FSeed: r.Uint64() % 1000, Script: sc, End: "complete", Tick: tick, Partial: st == "FMap" && r.IntN(2) == 0})
 	}
+	if common.Batch == 0 {
+		typedNilFailures("C07")
+	}
 }
